@@ -50,6 +50,11 @@ fn viol(kind: Kind, v: i128, stage: &str, symptom: &str, spec_len: usize, expect
 }
 
 fn check(kind: Kind, v: i128) -> Outcome {
+    check_len(kind, v).map(|_| ())
+}
+
+/// Ok(spec length) when the value round-trips.
+fn check_len(kind: Kind, v: i128) -> Result<usize, Violation> {
     let mut buf = [0xffu8; 24];
     let (written, spec_len, ref_dec): (Result<usize, std::io::Error>, usize, Option<(i128, usize)>);
     {
@@ -119,7 +124,7 @@ fn check(kind: Kind, v: i128) -> Outcome {
             Ok(_) => {}
         }
     }
-    Ok(())
+    Ok(spec_len)
 }
 
 /// Merged inclusive ranges.
@@ -200,35 +205,53 @@ fn sweep(ctx: &mut Ctx, kind: Kind, ranges: Vec<(i128, i128)>, what: &str) {
                     }
                     let _g = crate::guard::enter(hid, b as u64);
                     let (lo, hi) = blocks[b];
-                    let mut v = lo;
-                    while v <= hi {
-                        let o = match vmc::catch(|| check(kind, v)) {
-                            Ok(o) => o,
-                            Err((msg, file)) => Err(viol(
-                                kind,
-                                v,
-                                "roundtrip",
-                                &format!("panic:{}@{}", vmc::normalise_msg(&msg), file.rsplit("/src/").next().unwrap_or("")),
-                                0,
-                                "no panic".into(),
-                                format!("panic: {msg} in {file}"),
-                            )),
-                        };
-                        if let Err(e) = o {
-                            let mut g = found.lock().unwrap();
-                            let ent = g.entry(e.fingerprint.clone()).or_insert((e, v, 0));
-                            ent.2 += 1;
-                            if v.abs() < ent.1.abs() {
-                                ent.1 = v;
-                            }
+                    let record = |e: Violation, v: i128| {
+                        let mut g = found.lock().unwrap();
+                        let ent = g.entry(e.fingerprint.clone()).or_insert((e, v, 0));
+                        ent.2 += 1;
+                        if v.abs() < ent.1.abs() {
+                            ent.1 = v;
                         }
-                        v += 1;
-                    }
-                    local_lens.insert(match kind {
-                        Kind::Itf8 => grans::ints::itf8_len(lo as i32),
-                        Kind::Ltf8 => grans::ints::ltf8_len(lo as i64),
-                        Kind::Uint7 => grans::ints::uint7_len(lo as u32),
+                    };
+                    // fast path: the block under one catch; after a panic the rest goes value by value
+                    let at = std::cell::Cell::new(lo);
+                    let lens_mask = std::cell::Cell::new(0u32);
+                    let fast = vmc::catch(|| {
+                        while at.get() <= hi {
+                            match check_len(kind, at.get()) {
+                                Ok(l) => lens_mask.set(lens_mask.get() | 1 << l),
+                                Err(e) => record(e, at.get()),
+                            }
+                            at.set(at.get() + 1);
+                        }
                     });
+                    if fast.is_err() {
+                        let mut v = at.get();
+                        while v <= hi {
+                            match vmc::catch(|| check(kind, v)) {
+                                Ok(Ok(())) => {}
+                                Ok(Err(e)) => record(e, v),
+                                Err((msg, file)) => record(
+                                    viol(
+                                        kind,
+                                        v,
+                                        "roundtrip",
+                                        &format!("panic:{}@{}", vmc::normalise_msg(&msg), file.rsplit("/src/").next().unwrap_or("")),
+                                        0,
+                                        "no panic".into(),
+                                        format!("panic: {msg} in {file}"),
+                                    ),
+                                    v,
+                                ),
+                            }
+                            v += 1;
+                        }
+                    }
+                    for l in 0..16usize {
+                        if lens_mask.get() >> l & 1 != 0 {
+                            local_lens.insert(l);
+                        }
+                    }
                 }
                 lens_seen.lock().unwrap().extend(local_lens);
             });
@@ -238,8 +261,20 @@ fn sweep(ctx: &mut Ctx, kind: Kind, ranges: Vec<(i128, i128)>, what: &str) {
     let mut found_v = Vec::new();
     for (_, (_, v, count)) in found.into_inner().unwrap() {
         // re-evaluate at the smallest-magnitude failing value so that decoded/observed describe it
-        let viol = check(kind, v).err().unwrap_or_else(|| vmc::machinery("integer failure did not reproduce"));
-        found_v.push((viol, json!({"value": v.to_string()}), count));
+        let again = match vmc::catch(|| check(kind, v)) {
+            Ok(Err(e)) => e,
+            Ok(Ok(())) => vmc::machinery("integer failure did not reproduce"),
+            Err((msg, file)) => viol(
+                kind,
+                v,
+                "roundtrip",
+                &format!("panic:{}@{}", vmc::normalise_msg(&msg), file.rsplit("/src/").next().unwrap_or("")),
+                0,
+                "no panic".into(),
+                format!("panic: {msg} in {file}"),
+            ),
+        };
+        found_v.push((again, json!({"value": v.to_string()}), count));
     }
     let (min, max) = kind.bounds();
     let mut extra = BTreeMap::new();
@@ -263,6 +298,7 @@ fn sweep(ctx: &mut Ctx, kind: Kind, ranges: Vec<(i128, i128)>, what: &str) {
         extra,
         found: found_v,
         wall_s: t0.elapsed().as_secs_f64(),
+        ..Default::default()
     });
 }
 
